@@ -519,6 +519,23 @@ class Lang:
     def widening_ok(self, a: LT, b: LT) -> bool:
         return False
 
+    def float_conv(self, v: Val, to: LT, float_to_int="trap"):
+        """Value conversions involving a floating-point type (IEEE 754, round-to-nearest-even):
+        float -> float of another width; integer/bool -> float; float -> integer (truncation toward zero; out of range or
+        NaN: `float_to_int` = "trap" (undefined / unspecified in the language) or "sat" (saturating, NaN -> 0))."""
+        s = v.lt
+        if s.kind == "float" and to.kind == "float":
+            return Val(to, tm.fpconv(v.term, to.bits))
+        if s.kind in ("int", "bool") and to.kind == "float":
+            t = v.term if s.kind == "int" else tm.zext(v.term, 32)
+            return Val(to, tm.int2fp(t, s.kind == "int" and s.signed, to.bits))
+        if s.kind == "float" and to.kind == "int":
+            if float_to_int == "sat":
+                return Val(to, tm.fp2int(v.term, to.bits, to.signed, "sat"))
+            self.traps.append(tm.bnot(tm.fpinrange(v.term, to.bits, to.signed)))
+            return Val(to, tm.fp2int(v.term, to.bits, to.signed, "raw"))
+        raise Unsupported("%s: conversion %r -> %r" % (self.name, s, to))
+
     def reinterpret(self, v: Val, to: LT) -> Val:
         if v.lt.w != to.w:
             raise Unsupported("reinterpret between different sizes %r -> %r" % (v.lt, to))
@@ -703,6 +720,8 @@ def _c_explicit(self, v: Val, to: LT) -> Val:
         return Val(PTR, v.term)
     if s.kind == "float" and to.kind == "float" and s.bits == to.bits:
         return Val(to, v.term)
+    if (s.kind == "float" and to.kind in ("float", "int")) or (to.kind == "float" and s.kind in ("int", "bool")):
+        return self.float_conv(v, to, "trap")     # out-of-range float -> int is undefined (C/C++/D) / unspecified (C#)
     raise Unsupported("%s: conversion %r -> %r is not a bit-level operation" % (self.name, s, to))
 
 
@@ -840,6 +859,8 @@ class CSharp(Lang):
 
     def widening_ok(self, a, b):
         """C# implicit numeric conversions (ECMA-334 10.2.3), integral part, plus int->nint, nint->long."""
+        if b.kind == "float":
+            return (a.kind == "int") or (a.kind == "float" and a.bits <= b.bits)   # int -> float/double, float -> double
         if a.kind != "int" or b.kind != "int":
             return False
         an, bn = a.name, b.name
@@ -921,6 +942,8 @@ class Go(Lang):
             return Val(to, v.term)
         if s.kind == "int" and to.kind == "int":
             return self.int_conv(v, to)
+        if (s.kind == "float" and to.kind in ("float", "int")) or (s.kind == "int" and to.kind == "float"):
+            return self.float_conv(v, to, "trap")    # float -> int out of range: implementation-dependent value
         raise Unsupported("go: conversion %r -> %r" % (s, to))
 
     def call(self, name, targs, args, env):
@@ -969,6 +992,8 @@ class D(Lang):
         at least as wide (signedness may change); bool converts to integral types."""
         if a.kind == "bool" and b.kind == "int":
             return True
+        if b.kind == "float":
+            return a.kind in ("int", "float")      # D converts integral -> floating and float <-> double implicitly
         return a.kind == "int" and b.kind == "int" and b.bits >= a.bits
 
     def method(self, obj, name, targs, args, env):
@@ -1035,6 +1060,10 @@ class Rust(Lang):
             return v
         if s.kind == "float" and to == s:
             return v
+        if (s.kind == "float" and to.kind in ("float", "int")) or (s.kind in ("int", "bool") and to.kind == "float"):
+            if s.kind == "bool":
+                raise Unsupported("rust: `bool as float` does not compile")
+            return self.float_conv(v, to, "sat")      # `as` float -> int saturates, NaN -> 0
         raise Unsupported("rust: `%r as %r` is not a bit-level conversion" % (s, to))
 
     def eval_match(self, n, env):
@@ -1117,6 +1146,14 @@ class Rust(Lang):
             if not ok:
                 raise Unsupported("rust: no `impl From<%r> for %s`" % (s, head))
             return self.explicit(a, to)
+        if name in ("f64::from", "f32::from") and len(args) == 1:
+            a = self.materialize(args[0])
+            to = F64 if head == "f64" else F32
+            ok = (a.lt == to) or (a.lt == F32 and to == F64) or (a.lt.kind == "int" and a.lt.bits * 2 <= to.bits and
+                                                                  a.lt.name not in ("usize", "isize"))
+            if not ok:
+                raise Unsupported("rust: no `impl From<%r> for %s`" % (a.lt, head))
+            return a if a.lt == to else self.float_conv(a, to)
         if name in ("f32::from_bits", "f64::from_bits") and len(args) == 1:
             src = RUST_INTS["u32" if head == "f32" else "u64"]
             return self.reinterpret(self.implicit(args[0], src, name), F32 if head == "f32" else F64)
@@ -1239,6 +1276,9 @@ class MoonBit(Lang):
             if obj.lt.kind == "char":
                 return Val(to, obj.term)
             return self.int_conv(obj, to)
+        if not args and name in ("to_float", "to_double") and tn in ("Float", "Double", "Int", "UInt", "Int64", "UInt64", "Byte"):
+            to = F32 if name == "to_float" else F64
+            return obj if obj.lt == to else self.float_conv(obj, to)
         if name in self.BITOPS and len(args) == 1 and obj.lt.kind == "int":
             b = self.implicit(args[0], obj.lt, "." + name)
             return Val(obj.lt, tm.binop(self.BITOPS[name], obj.term, b.term))
@@ -1250,6 +1290,10 @@ class MoonBit(Lang):
             if name == "Int::unsafe_to_char":
                 self.traps.append(tm.bnot(valid_scalar(a.term)))   # unsafe: undefined outside scalar values
             return Val(CHAR, a.term)
+        if name in ("Float::from_double", "Double::from_float", "Float::from_int", "Double::from_int") and len(args) == 1:
+            src = {"from_double": "Double", "from_float": "Float", "from_int": "Int"}[name.split("::")[1]]
+            a = self.implicit(args[0], MBT[src], name)
+            return self.float_conv(a, MBT[name.split("::")[0]])
         if "::" in name and len(args) >= 1:
             ty, m = name.split("::", 1)
             if ty in MBT:
